@@ -37,7 +37,7 @@ Fixpoint chain_read (ls : list layer) (depth : nat) (off n : Z) : res (list lsrc
        | [] => Ok []
        | s :: t =>
          do a <- (match s with
-                  | SParent o m => chain_read rest (S depth) o m
+                  | SParent o m => if m <=? 0 then Ok [] else chain_read rest (S depth) o m
                   | _ => Ok (lsrcs_of_seg depth s)
                   end);
          do b <- go t;
